@@ -774,3 +774,45 @@ func (p *Prog) CallersClosureWithin(targets map[*ssa.Function]bool, keep func(*s
 	}
 	return seen
 }
+
+// Loop is a natural loop identified by its header block.
+type Loop struct {
+	Header *ssa.BasicBlock
+	Blocks map[*ssa.BasicBlock]bool
+	Latches []*ssa.BasicBlock
+}
+
+// Loops finds the natural loops of f (back edges t->h where h dominates t).
+func Loops(f *ssa.Function) []*Loop {
+	byHeader := map[*ssa.BasicBlock]*Loop{}
+	var order []*ssa.BasicBlock
+	for _, b := range f.Blocks {
+		for _, s := range b.Succs {
+			if s.Dominates(b) {
+				l := byHeader[s]
+				if l == nil {
+					l = &Loop{Header: s, Blocks: map[*ssa.BasicBlock]bool{s: true}}
+					byHeader[s] = l
+					order = append(order, s)
+				}
+				l.Latches = append(l.Latches, b)
+				// collect body: blocks that reach the latch without passing the header
+				stack := []*ssa.BasicBlock{b}
+				for len(stack) > 0 {
+					x := stack[len(stack)-1]
+					stack = stack[:len(stack)-1]
+					if l.Blocks[x] {
+						continue
+					}
+					l.Blocks[x] = true
+					stack = append(stack, x.Preds...)
+				}
+			}
+		}
+	}
+	var out []*Loop
+	for _, h := range order {
+		out = append(out, byHeader[h])
+	}
+	return out
+}
